@@ -96,8 +96,12 @@ impl ParseInfo {
     }
 
     fn add_tags(&mut self, tags: Vec<Tag>) {
-        self.tags = Some(tags);
-        self.user_data_context = Some(UserDataContext::TagIndex(0));
+        // A further tags chunk adds to the tags read so far (as Aseprite's
+        // reader does); the user data following it belongs to its own tags.
+        let all_tags = self.tags.get_or_insert_with(Vec::new);
+        let first_new = all_tags.len() as u32;
+        all_tags.extend(tags);
+        self.user_data_context = Some(UserDataContext::TagIndex(first_new));
     }
 
     fn add_external_files(&mut self, files: Vec<ExternalFile>) {
@@ -106,7 +110,7 @@ impl ParseInfo {
         }
     }
 
-    fn set_tag_user_data(&mut self, user_data: UserData, tag_index: u16) -> Result<()> {
+    fn set_tag_user_data(&mut self, user_data: UserData, tag_index: u32) -> Result<()> {
         let tags = self.tags.as_mut().ok_or_else(|| {
             AsepriteParseError::InternalError(
                 "No tags data found when resolving Tags chunk context".into(),
@@ -409,7 +413,7 @@ enum UserDataContext {
     CelId(CelId),
     LayerIndex(u32),
     OldPalette,
-    TagIndex(u16),
+    TagIndex(u32),
     SliceIndex(u32),
 }
 
